@@ -18,7 +18,7 @@ Lang/Interp.v, matrix).  Correspondence / oracle part (this file):
         map / its keys / iterating it / `in` never fail) are also compared with the interpreter
         (c12-matrix) and with the documented table (c12-doc, Spec.v).
 """
-import os, sys, collections, time
+import os, re, sys, collections, time
 sys.path.insert(0, os.path.dirname(os.path.dirname(os.path.abspath(__file__))))
 from vlib import *
 import proggen, langenc
@@ -647,6 +647,95 @@ def operator_cases():
     return out
 
 
+# ---- which argument positions of which built-ins may receive an undefined under Strict / SemiStrict ----
+# Oracle of the sweep: an undefined (missing variable, missing attribute) passed to a built-in must make the
+# call FAIL under Strict and SemiStrict, unless the (built-in, position) cell is listed here with its reason.
+# cell -> (reason, modes among strict / semistrict in which the call may succeed)
+_BOTH = ("strict", "semistrict")
+R_OPTIONAL = "optional parameter: an undefined (or none) argument counts as omitted in every mode (argtypes.rs, impl ArgType for Option<T>)"
+R_KWARG = "keyword arguments are optional parameters: an undefined one counts as omitted (Kwargs::get::<Option<T>>)"
+R_VALUE_TEST = "type / identity / comparison tests are total predicates on the value as it is (tests.rs take Value / &Value: no coercion to a string, number or iterable happens); an undefined is simply not a number, not equal, ..."
+R_DOCUMENTED = "documented to accept an undefined"
+R_TRUTH = "a truth test: the documented matrix makes it fail under Strict only"
+R_FORWARDED = "forwarded unchanged to the test / filter named in the call, which decides (select / reject / selectattr / rejectattr / map)"
+R_STORED = "stored as a value, not used (dict / namespace build a container)"
+TOLERATED = {
+    "filter:default": {"0": (R_DOCUMENTED + " (its purpose)", _BOTH), "1": (R_OPTIONAL, _BOTH), "2": (R_TRUTH, ("semistrict",))},
+    "filter:d": {"0": (R_DOCUMENTED + " (alias of default)", _BOTH), "1": (R_OPTIONAL, _BOTH), "2": (R_TRUTH, ("semistrict",))},
+    "filter:bool": {"0": (R_TRUTH + " (filters.rs: 'behaves the same as the if statement')", ("semistrict",))},
+    "filter:tojson": {"0": (R_DOCUMENTED + ": serialised like none (null)", _BOTH), "1": (R_OPTIONAL, _BOTH)},
+    "filter:pprint": {"0": (R_DOCUMENTED + ": debug representation of any value", _BOTH)},
+    "filter:urlencode": {"0": (R_DOCUMENTED + " (filters.rs: 'If the value is none or undefined, an empty string is returned')", _BOTH)},
+    "filter:batch": {"2": (R_OPTIONAL, _BOTH)}, "filter:slice": {"2": (R_OPTIONAL, _BOTH)}, "filter:indent": {"1": (R_OPTIONAL, _BOTH), "2": (R_OPTIONAL, _BOTH), "3": (R_OPTIONAL, _BOTH)},
+    "filter:join": {"1": (R_OPTIONAL, _BOTH)}, "filter:round": {"1": (R_OPTIONAL, _BOTH)}, "filter:split": {"1": (R_OPTIONAL, _BOTH), "2": (R_OPTIONAL, _BOTH)},
+    "filter:trim": {"1": (R_OPTIONAL, _BOTH)},
+    "filter:select": {"1": (R_OPTIONAL, _BOTH), "2": (R_FORWARDED, _BOTH)}, "filter:reject": {"1": (R_OPTIONAL, _BOTH), "2": (R_FORWARDED, _BOTH)},
+    "filter:selectattr": {"2": (R_OPTIONAL, _BOTH), "3": (R_FORWARDED, _BOTH)}, "filter:rejectattr": {"2": (R_OPTIONAL, _BOTH), "3": (R_FORWARDED, _BOTH)},
+    "filter:map": {"2": (R_FORWARDED, _BOTH)},
+    "test:defined": {"0": (R_DOCUMENTED + " (its purpose)", _BOTH)}, "test:undefined": {"0": (R_DOCUMENTED + " (its purpose)", _BOTH)}, "test:none": {"0": (R_VALUE_TEST, _BOTH)},
+    "function:debug": {"*": (R_DOCUMENTED + ": debug representation of any value", _BOTH)},
+    "function:dict": {"*": (R_STORED, _BOTH)}, "function:namespace": {"*": (R_STORED, _BOTH)},
+    "function:range": {"2": (R_OPTIONAL, _BOTH), "3": (R_OPTIONAL, _BOTH)}, "function:joiner": {"1": (R_OPTIONAL, _BOTH)},
+}
+for _t in ["boolean", "divisibleby", "escaped", "safe", "even", "odd", "false", "true", "float", "int", "integer", "iterable", "mapping", "number",
+           "sequence", "string", "sameas", "eq", "equalto", "==", "ne", "!=", "lt", "lessthan", "<", "le", "<=", "gt", "greaterthan", ">", "ge", ">="]:
+    TOLERATED["test:" + _t] = {"*": (R_VALUE_TEST, _BOTH)}
+TOLERATED["test:in"] = {"0": (R_VALUE_TEST + " (the searched item; the container in position 1 is iterated and must fail)", _BOTH)}
+
+
+def tolerated(kind, name, pos):
+    """modes among strict / semistrict in which an undefined in this cell may get through, with the reason"""
+    if pos.startswith("kw:"):
+        return (R_KWARG, _BOTH)
+    cell = TOLERATED.get("%s:%s" % (kind, name), {})
+    return cell.get(pos) or cell.get("*") or (None, ())
+
+
+def builtin_must_fail(kind, name, pos, print_row, for_row=None):
+    """modes in which the call gets through although the cell is not allowed to (a lazy result may defer the failure
+    to the moment it is consumed: then the `for` position must fail with UndefinedError)"""
+    allowed = tolerated(kind, name, pos)[1]
+    bad = []
+    for i in (0, 1):
+        if MODES[i] in allowed or print_row[i][0] == "err":
+            continue
+        if for_row is not None and for_row[i] == ("err", 13):
+            continue
+        bad.append(MODES[i])
+    return bad
+
+
+def names_from_defaults_rs(repo):
+    """names registered by build_builtin_filters / build_builtin_tests / build_globals of defaults.rs; raises when the
+    parse looks implausible (a sweep over the wrong names tests nothing)"""
+    src = open(os.path.join(repo, "minijinja/src/defaults.rs")).read()
+    out = {}
+    for key, fns in (("filters", ("build_builtin_filters", "get_builtin_filters")), ("tests", ("build_builtin_tests", "get_builtin_tests")),
+                     ("globals", ("build_globals", "get_globals"))):
+        names = []
+        for fn in fns:
+            m = re.search(r"fn\s+%s\s*\(" % fn, src)
+            if not m:
+                continue
+            b = src.find("{", m.end())
+            depth, e = 0, b
+            while e < len(src):
+                if src[e] == "{":
+                    depth += 1
+                elif src[e] == "}":
+                    depth -= 1
+                    if depth == 0:
+                        break
+                e += 1
+            names = sorted(set(re.findall(r'rv\.insert\(\s*"([^"]+)"', src[b:e])))
+            if names:
+                break
+        out[key] = names
+    if len(out["filters"]) < 30 or len(out["tests"]) < 25 or len(out["globals"]) < 3 or "upper" not in out["filters"] or "startingwith" not in out["tests"] or "range" not in out["globals"]:
+        raise RuntimeError("cannot read the built-in names from defaults.rs: %d filters, %d tests, %d functions" % (len(out["filters"]), len(out["tests"]), len(out["globals"])))
+    return out
+
+
 def call_src(kind, name, recv, args, kwargs):
     a = list(args) + ["%s=%s" % (k, v) for k, v in kwargs.items()]
     if kind == "filter":
@@ -788,6 +877,15 @@ def main():
                         chk.known_finding(k["id"], k["what"])
                     if dev and not k:
                         chk.violation("matrix: " + "; ".join(dev), {"template": rp["template"], "context": ctx, "probe": rp["probe"], "outcomes": row_show(row)})
+                if str(rp.get("site", "")).startswith("builtin:"):
+                    _, bk, bn, bp = rp["site"].split(":", 3)
+                    badm = builtin_must_fail(bk, bn, bp, row)
+                    k = known_site(rp["site"], row) if badm else None
+                    if k:
+                        chk.known_finding(k["id"], k["what"])
+                    if badm and not k:
+                        chk.violation("built-in %s %s, argument position %s: an undefined operand does not make the call fail under %s" % (bk, bn, bp, " and ".join(badm)),
+                                      {"template": rp["template"], "context": ctx, "outcomes": row_show(row), "site": rp["site"]})
                 if str(rp.get("site", "")).startswith("iterate:filter:"):
                     badm = [MODES[i] for i in (0, 1) if row[i][0] != "err"]
                     k = known_site(rp["site"], row) if badm else None
@@ -894,6 +992,15 @@ def main():
     if not names or not names.get("filters") or not names.get("tests"):
         chk.violation("cannot enumerate the built-ins of Environment::new()", {"theorem_or_correspondence": "harness/src/bin/c12.rs", "stderr": e[-500:]}, True)
         chk.finish()
+    try:
+        src_names = names_from_defaults_rs(REPO)
+    except Exception as ex:
+        chk.violation("cannot read the built-in names from defaults.rs", {"theorem_or_correspondence": "minijinja/src/defaults.rs build_builtin_filters / build_builtin_tests / build_globals", "error": str(ex)}, True)
+        chk.finish()
+    missing_at_runtime = {k: sorted(set(src_names[k]) - set(names[k])) for k in src_names}
+    if any(missing_at_runtime.values()):
+        chk.violation("built-ins registered in defaults.rs are absent from Environment::new() of the harness", {"theorem_or_correspondence": "defaults.rs vs harness/src/bin/c12.rs", "missing": missing_at_runtime}, True)
+        chk.finish()
     sweep, unlisted = sweep_cases(names)
     s_items, s_meta = [], []
     for sid, kind, name, pos, expr in sweep:
@@ -903,6 +1010,7 @@ def main():
     profiles = (False, True) if chk.thorough else (False,)
     iter_dev = {}
     iter_seen = {}
+    cell_seen = {}
     coercion = {}
     for rel in profiles:
         rows = render4(s_items, release=rel)
@@ -923,6 +1031,9 @@ def main():
             # (judged on the print position; a lazy result may defer the failure to the moment it is consumed by `for`)
             if kind == "filter" and pos.isdigit() and int(pos) in ITERATING.get(name, []) and sid.split(":")[3].split("#")[0] == "u" and pn in ("print", "for"):
                 iter_seen.setdefault(("iterate:filter:%s:%s" % (name, pos), sid), {})[pn] = (src, row)
+            un = sid.rsplit("#", 1)[0].rsplit(":", 1)[1]
+            if un in ("u", "missing-attr") and pn in ("print", "for"):
+                cell_seen.setdefault((kind, name, pos, sid), {})[pn] = (src, row)
             if kind == "filter" and pos == "0" and pn == "print" and sid.split(":")[3].startswith("u") and sid.endswith("#0"):
                 coercion[name] = row_show(row)
     for (key, sid), d in iter_seen.items():
@@ -938,6 +1049,37 @@ def main():
         else:
             chk.violation("matrix, iterate site %s: iterating an undefined does not fail under %s" % (site, " and ".join(bad)),
                           {"template": src, "context": CTX, "outcomes": row_show(row), "site": site})
+    # every (built-in, position) cell: an undefined must make the call fail under strict and semistrict unless TOLERATED
+    cell_dev, cells, cells_tolerated = {}, set(), set()
+    for (kind, name, pos, sid), d in cell_seen.items():
+        if "print" not in d:
+            continue
+        cells.add((kind, name, pos))
+        if tolerated(kind, name, pos)[1]:
+            cells_tolerated.add((kind, name, pos))
+        bad = builtin_must_fail(kind, name, pos, d["print"][1], d["for"][1] if "for" in d else None)
+        if bad:
+            cell_dev.setdefault("builtin:%s:%s:%s" % (kind, name, pos), (d["print"][0], d["print"][1], bad))
+    n_cell_viol = 0
+    for site, (src, row, bad) in sorted(cell_dev.items()):
+        k = known_site(site, row)
+        if k:
+            chk.known_finding(k["id"], k["what"])
+            hist["sweep_known_" + k["id"]] += 1
+            continue
+        if n_cell_viol >= 8:
+            continue
+        row2 = render4([(src, CTX)])[0]
+        _, kind, name, pos = site.split(":", 3)
+        bad2 = builtin_must_fail(kind, name, pos, row2)
+        if not bad2:
+            hist["unreproducible"] += 1
+            continue
+        n_cell_viol += 1
+        chk.violation("built-in %s %s, argument position %s: an undefined operand does not make the call fail under %s (the cell is not in the table of tolerated positions)" % (kind, name, pos, " and ".join(bad2)),
+                      {"template": src, "context": CTX, "outcomes": row_show(row2), "site": site})
+    chk.cov["builtin_cells"] = {"cells (built-in x argument position)": len(cells), "tolerated_by_table": len(cells_tolerated), "must_fail": len(cells) - len(cells_tolerated),
+                                "known_gaps": sorted(s for s in cell_dev if known_site(s, cell_dev[s][1]))}
     ops = operator_cases()
     o_items = []
     for oid, e, is_expr in ops:
